@@ -318,6 +318,24 @@ func (v *FHIRPathVisitor) VisitExternalConstantTerm(ctx *grammar.ExternalConstan
 	return v.transformedVisitResult(&expr.ExternalConstantExpression{Identifier: ident})
 }
 
+// identifierName returns the name an identifier denotes: a delimited identifier
+// (`div`, `given`) denotes the text between its backticks, with the escapes of
+// string literals decoded; any other identifier denotes itself.
+func identifierName(text string) (string, error) {
+	if len(text) < 2 || text[0] != '`' || text[len(text)-1] != '`' {
+		return text, nil
+	}
+	inner := text[1 : len(text)-1]
+	if !strings.Contains(inner, "\\") {
+		return inner, nil
+	}
+	name, err := system.ParseString("'" + strings.ReplaceAll(inner, "'", "\\'") + "'")
+	if err != nil {
+		return "", err
+	}
+	return string(name), nil
+}
+
 func (v *FHIRPathVisitor) VisitParenthesizedTerm(ctx *grammar.ParenthesizedTermContext) interface{} {
 	return v.Visit(ctx.Expression())
 }
@@ -429,7 +447,10 @@ func (v *FHIRPathVisitor) VisitExternalConstant(ctx *grammar.ExternalConstantCon
 // VisitMemberInvocation checks to see if the identifier corresponds to a resource type and is the
 // root of the expression. If so, it will return a TypeExpression. Otherwise, it returns a FieldExpression.
 func (v *FHIRPathVisitor) VisitMemberInvocation(ctx *grammar.MemberInvocationContext) interface{} {
-	identifier := ctx.GetText()
+	identifier, err := identifierName(ctx.GetText())
+	if err != nil {
+		return &VisitResult{nil, err}
+	}
 	var expression expr.Expression
 
 	if resource.IsType(identifier) && !v.visitedRoot {
@@ -459,7 +480,10 @@ func (v *FHIRPathVisitor) VisitTotalInvocation(ctx *grammar.TotalInvocationConte
 }
 
 func (v *FHIRPathVisitor) VisitFunction(ctx *grammar.FunctionContext) interface{} {
-	ident := ctx.Identifier().GetText()
+	ident, err := identifierName(ctx.Identifier().GetText())
+	if err != nil {
+		return &VisitResult{nil, err}
+	}
 	fn, ok := v.Functions[ident]
 	if !ok {
 		return &VisitResult{nil, fmt.Errorf("%w: %s", errUnresolvedFunction, ident)}
@@ -516,7 +540,13 @@ func (v *FHIRPathVisitor) VisitTypeSpecifier(ctx *grammar.TypeSpecifierContext) 
 }
 
 func (v *FHIRPathVisitor) VisitQualifiedIdentifier(ctx *grammar.QualifiedIdentifierContext) interface{} {
-	return slices.Map(ctx.AllIdentifier(), func(i grammar.IIdentifierContext) string { return i.GetText() })
+	return slices.Map(ctx.AllIdentifier(), func(i grammar.IIdentifierContext) string {
+		// (a delimited identifier that does not decode stays as written and fails as an unknown name)
+		if name, err := identifierName(i.GetText()); err == nil {
+			return name
+		}
+		return i.GetText()
+	})
 }
 
 func (v *FHIRPathVisitor) VisitIdentifier(ctx *grammar.IdentifierContext) interface{} {
